@@ -93,10 +93,12 @@ class C10(Check):
             return ['lex', text, rng.choice([None, k]), rng.random() < 0.3, rng.random() < 0.3]
         if e.name == 'rec' and r < 0.3:
             return ['reconstruct', text, start]          # the TreeMatcher / Reconstructor caches, also under threads
-        if r < 0.37:
+        if r < 0.34:
             return ['parse', text, start] + (['mutate'] if rng.random() < 0.35 else [])
         if r < 0.40 and e.input_kind == 'str' and not stateful:
-            return ['parse_as', text, start, rng.choice(['slice', 'str'])]
+            # the text as a TextSlice of a larger buffer: the prefix (one of a few of equal length, with different line structure) is
+            # part of the operation - the coordinates of the slice count its line breaks
+            return ['parse_as', text, start, rng.choice(['slice', 'slice', 'str']), rng.choice(W.SLICE_PADS)]
         if r < 0.47:
             return ['parse_on_error', text, start, rng.choice([1, 2, 6])]
         if r < 0.57:
@@ -188,6 +190,8 @@ class C10(Check):
                 st = rng.choice(sorted(p.options.start))
                 plan['warm'] = ['parse', W.gen_text(rng, cfg, p, st), st]
             plan['tasks'] = tasks
+            plan['share_texts'] = rng.random() < 0.5
+            plan['addr_reuse'] = rng.random() < 0.5
             plan['strategy'] = _strategy(rng)
             plan['opcode'] = False                    # bytecode-granular pre-emption (f_trace_opcodes) segfaults CPython 3.12.1 under threads: kept off
             plan['interrupts'] = []
@@ -208,6 +212,7 @@ class C10(Check):
                         ops.append(self._gen_op(rng, cfg, 'threads'))
                     ops.append(['resume_kept'])
             plan['tasks'] = [ops]
+            plan['addr_reuse'] = rng.random() < 0.5           # sim/seams.py: a new input buffer gets the (simulated) address of a dead one of its length
             plan['strategy'] = {'kind': 'serial'}
             plan['interrupts'] = []
             for k in range(len(ops)):
@@ -226,6 +231,7 @@ class C10(Check):
         key = (cfg, jhash(op))
         v = self.expected.get(key)
         if v is None:
+            core.reset_lark_process_state()          # ... in a process that, as far as lark's class attributes and module globals go, has just started
             q = W.build(cfg)
             v = O.run_op(q, e, op, {}, shared={})
             if len(self.expected) > 200000:
@@ -279,6 +285,8 @@ class C10(Check):
         cfg = plan['config']
         e = W.ENTRIES[cfg.partition('/')[0]]
         gc.collect()
+        for name in core.reset_lark_process_state():
+            out.count('probe:process-state-left-by-an-earlier-run:' + name)
         from sim import seams
         seams.set_lalr_salt(plan.get('lalr_salt', 0))
         try:
@@ -296,6 +304,12 @@ class C10(Check):
             O.run_op(p, e, plan['warm'], {}, shared=shared)
         sch = S.Scheduler(plan['strategy'], seed=plan['sched_seed'], forced=forced, lark_root=self.lark_root, probes=PROBES,
                           opcode_funcs=OPCODE_FUNCS if plan.get('opcode') else ())
+        if plan.get('share_texts'):
+            # the callers hand over ONE string object where their texts are equal (a module constant used by every thread); otherwise
+            # every operation has a string object of its own (what a plan read from a replay file has anyway: see core.norm)
+            pool = {}
+            plan = dict(plan, tasks=[[[pool.setdefault(a, a) if isinstance(a, str) else a for a in op] for op in tops] for tops in plan['tasks']])
+            out.count('probe:callers-share-text-objects')
         intr = {}
         for t, k, n in plan.get('interrupts', []):
             intr.setdefault(t, {})[k] = n
@@ -307,7 +321,13 @@ class C10(Check):
             closures = [(lambda op=op, stash=stash: O.run_op(p, e, op, stash, shared=shared)) for op in tops]
             caps = {k: (3_000_000 if op[0] in ('construct', 'sibling', 'save_load', 'reconstruct') else 400_000) for k, op in enumerate(tops)}
             tasks.append(sch.spawn(closures, interrupts=intr.get(ti), step_caps=caps))
-        ok = sch.run(wall=120.0)
+        seams.ADDR[0] = seams.AddressSim() if plan.get('addr_reuse') else None     # (the oracle always gets plain inputs)
+        try:
+            ok = sch.run(wall=120.0)
+        finally:
+            if seams.ADDR[0] is not None and seams.ADDR[0].reused:
+                out.count('probe:input-buffer-got-the-address-of-a-dead-one', seams.ADDR[0].reused)
+            seams.ADDR[0] = None
         if plan.get('cold_start'):
             # whatever the racing constructions left behind must not leak into the next run of this worker (or into the oracle)
             import lark.load_grammar as LG
